@@ -1,6 +1,8 @@
 package rules
 
 import (
+	"strconv"
+
 	"github.com/vektah/gqlparser/v2/ast"
 	"github.com/vektah/gqlparser/v2/verifhook"
 
@@ -66,9 +68,11 @@ func checkDepthField(field *ast.Field, visitedFragments map[string]bool, depth i
 
 func checkDepthFragmentSpread(fragmentSpread *ast.FragmentSpread, visitedFragments map[string]bool, depth int) bool {
 	verifhook.Step(verifhook.SiteIntrospectionDepthSpread)
-	fragmentName := fragmentSpread.Name
-	if visited, ok := visitedFragments[fragmentName]; ok && visited {
-		// Fragment cycles are handled by `NoFragmentCyclesRule`.
+	// The outcome for a fragment depends only on the depth it is spread at, so each
+	// (fragment, depth) pair is looked at once. This keeps the check linear however often a
+	// fragment is spread, and ends fragment cycles (which `NoFragmentCyclesRule` reports).
+	key := fragmentSpread.Name + "#" + strconv.Itoa(depth)
+	if visitedFragments[key] {
 		return false
 	}
 	fragment := fragmentSpread.Definition
@@ -77,13 +81,7 @@ func checkDepthFragmentSpread(fragmentSpread *ast.FragmentSpread, visitedFragmen
 		return false
 	}
 
-	// Rather than following an immutable programming pattern which has
-	// significant memory and garbage collection overhead, we've opted to
-	// take a mutable approach for efficiency's sake. Importantly visiting a
-	// fragment twice is fine, so long as you don't do one visit inside the
-	// other.
-	visitedFragments[fragmentName] = true
-	defer delete(visitedFragments, fragmentName)
+	visitedFragments[key] = true
 	return checkDepthSelectionSet(fragment.SelectionSet, visitedFragments, depth)
 }
 
